@@ -14,7 +14,7 @@ from pyvc import extract
 from pyvc.harness import cover_thunk, smt_thunk
 from pyvc.loops import ArrV, LoopHooks, SymMap, SymSeq, loop_nodes, seq_len
 from pyvc.objects import ClassHooks
-from pyvc.symex import Engine, Opaque, Unsupported, is_sym
+from pyvc.symex import Engine, Opaque, OptV, Unsupported, is_sym
 
 FILE = "cogent3/evolve/likelihood_tree.py"
 Key = z3.DeclareSort("Key")
@@ -41,12 +41,18 @@ class IdxHooks(LoopHooks, ClassHooks):
             return None
         if isinstance(obj, SymMap) and meth == "__contains__":
             return obj.has(args[0])
+        if isinstance(obj, SymMap) and meth == "get" and len(args) == 1:
+            return OptV(z3.Not(obj.has(args[0])), obj.get(args[0]))      # None when the key is absent
         if isinstance(obj, ArrV) and meth == "__len__":
             return obj.shape[0]
         return super().call_method(eng, obj, meth, args, kw, env)
 
     def subscript(self, eng, obj, idx):
         store = isinstance(idx, tuple) and idx and isinstance(idx[0], str) and idx[0] == "store"
+        if store:
+            idx = (idx[0], eng.unopt(idx[1]), eng.unopt(idx[2]))
+        else:
+            idx = eng.unopt(idx)
         if isinstance(obj, ArrV):
             if store:
                 obj.write(eng, idx[1], idx[2])
